@@ -1,9 +1,9 @@
 CFG = {
-    "modules": ["Parsley.Props.C16"],
+    "modules": ["Parsley.Props.C16", "Parsley.Props.C02Struct"],
     "theorems": ["Parsley.C16.accepted_depth_le", "Parsley.C16.depth_restored", "Parsley.C16.parse_never_panics",
-                 "Parsley.C16.obj_loc", "Parsley.C16.at_bound_rejects", "Parsley.Obj.parseObjB_good"],
-    "partial": {"(within_bound_accepted)": "that every syntactically valid object within the bound is accepted is C02's spelling theorem; "
-                "here it is decided by the oracle on generated nesting profiles (nest cases), not by a theorem",
+                 "Parsley.C16.obj_loc", "Parsley.C16.at_bound_rejects", "Parsley.Obj.parseObjB_good",
+                 "Parsley.C02.within_bound_accepted", "Parsley.C02.Spells.depth_le"],
+    "partial": {
                 "(stack proportional to d)": "proved as: the nesting budget max-cur suffices (no budget panic) — the model's recursion depth is <= d; "
                 "the machine stack itself is observed only by the 10^5/10^6-deep runs"},
     "n": {"quick": 3000, "thorough": 150000},
@@ -19,6 +19,7 @@ LEVEL = {
     "technique": "Lean 4 invariant by induction on the nesting budget over an executable model of parse_pdf_obj + differential correspondence",
     "text": "Machine-checked proof for all inputs, cursors and contexts that an accepted object's nesting depth is within the bound, that the "
             "context's depth is restored after every outcome, and that no panic site (leave_obj assert, nesting budget, loop fuel) is reachable; "
-            "acceptance of valid objects within the bound and rejection beyond it are decided by the oracle on generated nesting profiles; "
+            "acceptance of every legally spelled object whose spelling depth is within the bound is a theorem too (within_bound_accepted, from C02's spell_parse); "
+            "rejection beyond the bound is accepted_depth_le (contrapositive) and is also exercised by the oracle on generated nesting profiles; "
             "model tied to parse_pdf_obj by the correspondence run (value, span, cursor, depth delta).",
 }
